@@ -305,6 +305,30 @@ theorem pathOk_of_ok (c : Cmp) :
     have hpair := child_pair_ok c o n (checkDecl_nil c o n h) (hnd [] n rfl) x oc nc hoc hnc
     exact pathOk_of_ok c p oc nc hpair (noDup_child hnd hnc) od nd ho' hn'
 
+/-- a declaration disappears only under a `#removedType` pragma -/
+theorem live_of_notRemoved (c : Cmp) :
+    ∀ (p : List String) (o n : Decl), checkDecl c o n = [] → NoDupNames n →
+      ∀ od, lookupPath o p = some od → NotRemoved n p → ∃ nd, lookupPath n p = some nd
+  | [], _, n, _, _, _, _, _ => ⟨n, rfl⟩
+  | x :: p, o, n, h, hnd, od, ho, hnr => by
+    obtain ⟨oc, hoc, ho'⟩ := lookupPath_cons ho
+    obtain ⟨hx, hrest⟩ := hnr
+    cases hn : child n x with
+    | none =>
+      exfalso
+      have hm := (checkDecl_nil c o n h).missing oc (child_missing c o n x oc hoc hn)
+      unfold checkRemoval at hm
+      split at hm
+      · rename_i hc
+        simp only [Bool.and_eq_true, List.contains_iff_mem] at hc
+        rw [(child_some hoc).2] at hc
+        exact hx hc.1
+      · simp at hm
+    | some nc =>
+      have hpair := child_pair_ok c o n (checkDecl_nil c o n h) (hnd [] n rfl) x oc nc hoc hn
+      obtain ⟨nd, hnd'⟩ := live_of_notRemoved c p oc nc hpair (noDup_child hnd hn) od ho' (hrest nc hn)
+      exact ⟨nd, by rw [lookupPath_child hn]; exact hnd'⟩
+
 theorem pathCompat_of_ok (c : Cmp) (R : String) (hroot : c.root = some R)
     (himp : ∀ x, lookupLast x c.expImports = lookupLast x c.foundImports)
     (o n : Decl) (h : checkDecl c o n = []) (hnd : NoDupNames n) :
